@@ -66,3 +66,14 @@ Lemma mz_ts_monotone t c s m ts row eff :
 Proof.
   unfold mz_handle, mz_handle_core. destruct (mz_is_some (mz_ep s)), ts; cbn; auto; discriminate.
 Qed.
+
+(* the one thing a message changes before its handler is even looked up - the sending endpoint's own remote log position -
+   moves only for a connection that HAS an Endpoint object (authenticated, configured), and only forward (newer ts) *)
+Lemma mz_rlp_only_own_endpoint t c s m ts row eff :
+  mz_rlp (mz_handle t c s m ts row eff) = true ->
+  (exists z, mz_cauth s = true /\ mz_cident s = Some z) /\ ts = MzTsNew.
+Proof.
+  unfold mz_handle, mz_handle_core. destruct (mz_ep s) as [z|] eqn:E; cbn.
+  - apply mz_ep_some in E. destruct ts; cbn; try discriminate. intros _. split; [eauto|reflexivity].
+  - destruct ts; discriminate.
+Qed.
